@@ -18,12 +18,17 @@ SCRIPTS = {
     "vt_inplace": '#!/bin/sh\nprintf "appended" >> "$1"\n',
     "vt_innoop": '#!/bin/sh\ncat "$1" > /dev/null\n',
     "vt_failin": '#!/bin/sh\nexit 4\n',
+    "vt_sidecar": '#!/bin/sh\ncp "$1" "$1.bak"\nmkdir -p "$(dirname "$1")/work.d"\ncp "$1" "$(dirname "$1")/work.d/copy"\nexec cat "$1"\n',     # leaves files next to its input
+    # (the same, silent: with --in-place nobody reads the program's standard output, and a program that writes more than a pipe holds
+    # blocks for ever - observed on the unchanged code, not a matter of this property)
+    "vt_sidecar_q": '#!/bin/sh\ncp "$1" "$1.bak"\nmkdir -p "$(dirname "$1")/work.d"\ncp "$1" "$(dirname "$1")/work.d/copy"\nprintf x >> "$1"\n',
 }
 # (transform command, extra flags, the program itself writes to $IN under --no-copy => excepted)
 MODES = [(None, [], False), ("vt_cat", [], False), ("vt_ignore", [], False), ("vt_fail", [], False), ("vt_in $IN", [], False), ("vt_in $IN", ["--no-copy"], False),
          ("vt_inout $IN $OUT", [], False), ("vt_inout $IN $OUT", ["--no-copy"], False), ("vt_inplace $IN", ["--in-place"], False),
          ("vt_innoop $IN", ["--in-place"], False), ("vt_innoop $IN", ["--in-place", "--no-copy"], False), ("vt_failin $IN", ["--in-place"], False),
          ("vt_failin $IN", ["--no-copy"], False), ("vt_inplace $IN", ["--in-place", "--no-copy"], True),
+         ("vt_sidecar $IN", [], False), ("vt_sidecar_q $IN", ["--in-place"], False),
          ("vt_no_such_program", [], False), ("vt_no_such_program $IN", ["--in-place"], False)]        # cannot be launched: fail fast, leave nothing behind
 
 
@@ -71,10 +76,14 @@ def one(t):
         res = {"k": k, "kind": kind, "spec": spec}
         if kind == "group":
             cmd, flags, excepted = spec["mode"]
-            args = ["group", "b"] + spec["opts"] + flags
+            args = ["group", "." if "xdg" in spec else "b"] + spec["opts"] + flags
             if cmd:
                 args += ["--transform", cmd]
-            r = lib.run_fclones(args, work, senv, timeout=120)
+            if "xdg" in spec:
+                # the cache location variable is set but unusable (empty or relative): the cache must not land in the working directory,
+                # which here is the scanned tree itself
+                senv["XDG_CACHE_HOME"] = spec["xdg"]
+            r = lib.run_fclones(args, base if "xdg" in spec else work, senv, timeout=120)
             res["excepted"] = excepted
         else:
             g = lib.run_fclones(["group", "b"] + spec["gopts"], work, env, timeout=120)
@@ -122,6 +131,9 @@ def main(tier):
         for opts in (group_opts if thorough else rng.sample(group_opts, 3)):
             k += 1
             cases.append((k, "group", {"mode": mode, "opts": opts}, rng.randint(0, 1 << 20)))
+    for xdg in ("", "relcache", "./c"):
+        k += 1
+        cases.append((k, "group", {"mode": MODES[0], "opts": ["--cache"], "xdg": xdg}, rng.randint(0, 1 << 20)))
     for op in dd.OPS:
         for gopts, opts in [([], []), (["-S"], ["--priority", "newest"]), (["--isolate", "b/x", "b/z"], ["-n", "1"]), ([], ["--name", "f*"]), ([], ["-o", "../script.sh"]),
                             (["-H"], ["--keep-path", "**/x/**"])]:
@@ -135,7 +147,7 @@ def main(tier):
     results = lib.pmap(one, cases, workers=12)
     nontrivial = 0
     for r in results:
-        desc = (f"group mode={r['spec']['mode'][0]} {' '.join(r['spec']['mode'][1])} opts={' '.join(r['spec']['opts'])}" if r["kind"] == "group"
+        desc = (f"group mode={r['spec']['mode'][0]} {' '.join(r['spec']['mode'][1])} opts={' '.join(r['spec']['opts'])}" + (f" XDG_CACHE_HOME={r['spec']['xdg']!r} cwd=tree" if "xdg" in r["spec"] else "") if r["kind"] == "group"
                 else f"dry-run op={r['spec']['op']} gopts={' '.join(r['spec']['gopts'])} opts={' '.join(r['spec']['opts'])}")
         if r["calls_seen"] > 0:
             nontrivial += 1
